@@ -78,4 +78,110 @@ example : ¬ ((2260000000000000 : ℚ) * (2 / 2^53 + 1 / 2^106) < 1 / 2) := by n
 /-- the identity function satisfies the standard model (non-vacuity of the hypothesis) -/
 example : StdModel id := fun x => ⟨0, by norm_num, by simp⟩
 
+/-! ## Text → integer (`value_to_satoshi('<decimal> BTC')`)
+
+`Value('<x> BTC')` computes `float(x) * 1`, and `value_sat` divides by the literal `1e-08` and rounds.  That is three
+rounding errors (the parse, the literal, the division), too many for the standard model alone at the top of the supply
+range: 3·2^-53·21·10^14 > 1/2.  Two facts about round-to-nearest close the gap: the literal `1e-08` is much closer to 10^-8
+than half an ulp (`lit1em8_close`, a computation), and above 2·10^7 coins the parse error is bounded by half an ulp of the
+binade below 2^25 (`BinadeModel`).  For the other denominator symbols (`mBTC`, `µBTC`, …: one more multiplication by an
+inexact constant) no such theorem is proved; they are decided by the correspondence run only. -/
+
+/-- round-to-nearest: below 2^k the absolute error is at most half a unit in the last place of that binade -/
+def BinadeModel (fl : ℚ → ℚ) : Prop := ∀ (x : ℚ) (k : ℕ), |x| < 2 ^ k → |fl x - x| ≤ 2 ^ k / 2 ^ 54
+
+theorem combine_errors (n e0 e1 e3 B : ℚ) (hn0 : 0 ≤ n) (h0 : |e0| ≤ 1 / 2^55)
+    (hb : |e1 + e3 + e1 * e3 - e0| ≤ B) (hB : n * B < 1 / 2 * (1 - 1 / 2^55)) :
+    |n * (1 + e1) / (1 + e0) * (1 + e3) - n| < 1 / 2 := by
+  have a0 := abs_le.mp h0
+  have hpos : 0 < 1 + e0 := by
+    have : (1:ℚ)/2^55 < 1 := by norm_num
+    linarith [a0.1]
+  have key : n * (1 + e1) / (1 + e0) * (1 + e3) - n = n * (e1 + e3 + e1 * e3 - e0) / (1 + e0) := by
+    field_simp; ring
+  rw [key, abs_div, abs_of_pos hpos, div_lt_iff₀ hpos, abs_mul, abs_of_nonneg hn0]
+  calc n * |e1 + e3 + e1 * e3 - e0| ≤ n * B := mul_le_mul_of_nonneg_left hb hn0
+    _ < 1 / 2 * (1 - 1 / 2^55) := hB
+    _ ≤ 1 / 2 * (1 + e0) := by nlinarith [a0.1]
+
+theorem err_bound (e0 e1 e3 c : ℚ) (hc0 : 0 ≤ c) (h0 : |e0| ≤ 1 / 2^55) (h1 : |e1| ≤ c) (h3 : |e3| ≤ 1 / 2^53) :
+    |e1 + e3 + e1 * e3 - e0| ≤ c + 1 / 2^53 + c / 2^53 + 1 / 2^55 := by
+  have t1 : |e1 * e3| ≤ c / 2^53 := by
+    rw [abs_mul]
+    calc |e1| * |e3| ≤ c * (1/2^53) := mul_le_mul h1 h3 (abs_nonneg _) hc0
+      _ = c / 2^53 := by ring
+  calc |e1 + e3 + e1 * e3 - e0| ≤ |e1 + e3 + e1 * e3| + |e0| := abs_sub _ _
+    _ ≤ |e1 + e3| + |e1 * e3| + |e0| := by gcongr; exact abs_add_le _ _
+    _ ≤ |e1| + |e3| + |e1 * e3| + |e0| := by gcongr; exact abs_add_le _ _
+    _ ≤ c + 1 / 2^53 + c / 2^53 + 1 / 2^55 := by linarith
+
+/-- the binary64 literal `1e-08` (written out in `BtcModel/Amount.lean`, compared with the binary64 model and with CPython by
+the driver op `amt_lit`) is within relative distance 2^-55 of 10^-8 -/
+theorem lit1em8_close : ∃ e0 : ℚ, |e0| ≤ 1 / 2^55 ∧ Btc.lit1em8 = 1 / 10^8 * (1 + e0) := by
+  refine ⟨Btc.lit1em8 * 10^8 - 1, ?_, ?_⟩
+  · unfold Btc.lit1em8; rw [abs_le]; constructor <;> norm_num
+  · unfold Btc.lit1em8; norm_num
+
+/-- T3: text → integer.  For every whole number of satoshi n ≤ 21·10^14 written as a decimal number of coins x = n / 10^8,
+`round(float(x) * 1 / 1e-08)` lies strictly within 1/2 of n — for every rounding function that obeys the standard model and
+the half-ulp bound and leaves representable numbers alone, and every constant `d` as close to 10^-8 as the literal is. -/
+theorem parse_value_sat_close (fl : ℚ → ℚ) (hfl : StdModel fl) (hbin : BinadeModel fl) (hidem : ∀ x, fl (fl x) = fl x) (d : ℚ)
+    (hd : ∃ e0 : ℚ, |e0| ≤ 1 / 2^55 ∧ d = 1 / 10^8 * (1 + e0)) (n : ℕ) (hn : n ≤ 2100000000000000) :
+    |fl (fl (fl ((n : ℚ) / 10^8) * 1) / d) - n| < 1 / 2 := by
+  rw [mul_one, hidem]
+  obtain ⟨e0, he0, rfl⟩ := hd
+  obtain ⟨e3, he3, h3⟩ := hfl (fl ((n : ℚ) / 10^8) / (1 / 10^8 * (1 + e0)))
+  have hpos : 0 < 1 + e0 := by
+    have := (abs_le.mp he0).1
+    have : (1:ℚ)/2^55 < 1 := by norm_num
+    linarith
+  have hnq : (0:ℚ) ≤ n := by positivity
+  have hnq' : (n:ℚ) ≤ 2100000000000000 := by exact_mod_cast hn
+  by_cases hsmall : n ≤ 2000000000000000
+  · obtain ⟨e1, he1, h1⟩ := hfl ((n : ℚ) / 10^8)
+    rw [h3, h1]
+    have : (n : ℚ) / 10^8 * (1 + e1) / (1 / 10^8 * (1 + e0)) * (1 + e3) = (n : ℚ) * (1 + e1) / (1 + e0) * (1 + e3) := by
+      field_simp
+    rw [this]
+    have hs : (n:ℚ) ≤ 2000000000000000 := by exact_mod_cast hsmall
+    refine combine_errors n e0 e1 e3 _ hnq he0 (err_bound e0 e1 e3 (1/2^53) (by norm_num) he0 he1 he3) ?_
+    calc (n:ℚ) * (1/2^53 + 1/2^53 + 1/2^53/2^53 + 1/2^55) ≤ 2000000000000000 * (1/2^53 + 1/2^53 + 1/2^53/2^53 + 1/2^55) := by
+          apply mul_le_mul_of_nonneg_right hs (by norm_num)
+      _ < 1 / 2 * (1 - 1 / 2^55) := by norm_num
+  · -- the top of the range: x = n / 10^8 lies in [2·10^7, 2^25), where half an ulp is 2^-29
+    have hbig : (2000000000000000:ℚ) < n := by exact_mod_cast (Nat.lt_of_not_le hsmall)
+    set x : ℚ := (n : ℚ) / 10^8 with hx
+    have hx0 : (20000000:ℚ) < x := by rw [hx, lt_div_iff₀ (by norm_num)]; linarith
+    have hx1 : |x| < 2^25 := by
+      rw [abs_of_pos (by linarith)]; rw [hx, div_lt_iff₀ (by norm_num)]; linarith
+    have habs := hbin x 25 hx1
+    have hxpos : 0 < x := by linarith
+    set e1 : ℚ := (fl x - x) / x with he1def
+    have h1 : fl x = x * (1 + e1) := by rw [he1def]; field_simp; ring
+    have he1 : |e1| ≤ 1 / (2^29 * 20000000) := by
+      rw [he1def, abs_div, abs_of_pos hxpos, div_le_iff₀ hxpos]
+      calc |fl x - x| ≤ 2^25 / 2^54 := habs
+        _ = 1 / (2^29 * 20000000) * 20000000 := by norm_num
+        _ ≤ 1 / (2^29 * 20000000) * x := by apply mul_le_mul_of_nonneg_left (le_of_lt hx0) (by norm_num)
+    rw [h3, h1]
+    have : x * (1 + e1) / (1 / 10^8 * (1 + e0)) * (1 + e3) = (n : ℚ) * (1 + e1) / (1 + e0) * (1 + e3) := by
+      rw [hx]; field_simp
+    rw [this]
+    refine combine_errors n e0 e1 e3 _ hnq he0 (err_bound e0 e1 e3 _ (by norm_num) he0 he1 he3) ?_
+    calc (n:ℚ) * (1 / (2^29 * 20000000) + 1/2^53 + 1 / (2^29 * 20000000)/2^53 + 1/2^55)
+          ≤ 2100000000000000 * (1 / (2^29 * 20000000) + 1/2^53 + 1 / (2^29 * 20000000)/2^53 + 1/2^55) := by
+          apply mul_le_mul_of_nonneg_right hnq' (by norm_num)
+      _ < 1 / 2 * (1 - 1 / 2^55) := by norm_num
+
+/-- T4: hence the decimal text of every amount up to the total supply converts to exactly that many satoshi -/
+theorem parse_value_sat_exact (fl : ℚ → ℚ) (hfl : StdModel fl) (hbin : BinadeModel fl) (hidem : ∀ x, fl (fl x) = fl x)
+    (n : ℕ) (hn : n ≤ 2100000000000000) :
+    ⌊fl (fl (fl ((n : ℚ) / 10^8) * 1) / Btc.lit1em8) + 1 / 2⌋ = (n : ℤ) := by
+  apply nearest_int_of_close
+  exact_mod_cast parse_value_sat_close fl hfl hbin hidem _ lit1em8_close n hn
+
+/-- the hypotheses are satisfiable together -/
+example : StdModel id ∧ BinadeModel id ∧ ∀ x : ℚ, id (id x) = id x :=
+  ⟨fun x => ⟨0, by norm_num, by simp⟩, fun x k _ => by simp; positivity, fun _ => rfl⟩
+
 end Btc.C17
